@@ -141,10 +141,11 @@ def run_seg(c):
             # second position: the same pair shifted (so same answer shifted), third: far apart (no intersection)
             sh = [Fraction(7), Fraction(-3)]
             far = [Fraction(40), Fraction(40)]
-            A1 = PointCollection(np.stack([hom(a), hom([a[0] + sh[0], a[1] + sh[1]]), hom(a)]))
-            B1 = PointCollection(np.stack([hom(b), hom([b[0] + sh[0], b[1] + sh[1]]), hom(b)]))
-            C1 = PointCollection(np.stack([hom(cc), hom([cc[0] + sh[0], cc[1] + sh[1]]), hom([cc[0] + far[0], cc[1] + far[1]])]))
-            D1 = PointCollection(np.stack([hom(d), hom([d[0] + sh[0], d[1] + sh[1]]), hom([d[0] + far[0], d[1] + far[1]])]))
+            # fourth position: two diagonals of a square that cross properly (whatever the mode of the other positions is)
+            A1 = PointCollection(np.stack([hom(a), hom([a[0] + sh[0], a[1] + sh[1]]), hom(a), hom([100, 100])]))
+            B1 = PointCollection(np.stack([hom(b), hom([b[0] + sh[0], b[1] + sh[1]]), hom(b), hom([102, 102])]))
+            C1 = PointCollection(np.stack([hom(cc), hom([cc[0] + sh[0], cc[1] + sh[1]]), hom([cc[0] + far[0], cc[1] + far[1]]), hom([100, 102])]))
+            D1 = PointCollection(np.stack([hom(d), hom([d[0] + sh[0], d[1] + sh[1]]), hom([d[0] + far[0], d[1] + far[1]]), hom([102, 100])]))
             s1, s2 = SegmentCollection(A1, B1), SegmentCollection(C1, D1)
             if X.seg_seg_intersection(a, b, [cc[0] + far[0], cc[1] + far[1]], [d[0] + far[0], d[1] + far[1]])[0] != "none":
                 raise Skip("far copy still meets")
@@ -153,14 +154,12 @@ def run_seg(c):
             return [f]
         r = list(r)
         if res[0] == "overlap":
-            for p in r:
-                pc = np.asarray(p.array)
-                q = pc[:-1] / pc[-1]
-                ck.check(True, "")
+            if what == "seg_seg2_coll":
+                ck.check(any(C.peq_all(np.asarray(p.array), np.array([101.0, 101.0, 1.0]), 1, 1e-7) for p in r), f"{what}:{mode}:crossing-pair-next-to-overlapping-pairs", [np.asarray(p.array).tolist() for p in r])
             return ck.result()
         exp = [res[1]] if res[0] == "point" else []
         if what == "seg_seg2_coll":
-            exp = exp + [[e[0] + 7, e[1] - 3] for e in exp]
+            exp = exp + [[e[0] + 7, e[1] - 3] for e in exp] + [[Fraction(101), Fraction(101)]]
         compare(ck, r, exp, f"{what}:{mode}:{'hit' if exp else 'miss'}")
         r2, f = call(f"{what}:{mode}:swapped", s2.intersect, s1)
         if f:
@@ -216,18 +215,20 @@ def run_seg(c):
         if res[0] == "overlap":
             raise Skip("overlap")
         sh = np.array([3.0, -2.0, 5.0])
-        A1 = PointCollection(np.stack([np.append(e3(a), 1), np.append(e3(a), 1), np.append(e3(a) + sh, 1)]))
-        B1 = PointCollection(np.stack([np.append(e3(b), 1), np.append(e3(b), 1), np.append(e3(b) + sh, 1)]))
-        C1 = PointCollection(np.stack([np.append(e3(cc), 1), np.append(e3(cc) + nrm, 1), np.append(e3(cc) + sh, 1)]))
-        D1 = PointCollection(np.stack([np.append(e3(d), 1), np.append(e3(d) + 2 * nrm, 1), np.append(e3(d) + sh, 1)]))
+        # fourth position: two segments of one line that share exactly one end point (b' = c')
+        t0, t1, t2 = e3(a) - 7 * nrm, e3(b) - 7 * nrm, e3(b) - 7 * nrm + 2 * (e3(b) - e3(a))
+        A1 = PointCollection(np.stack([np.append(e3(a), 1), np.append(e3(a), 1), np.append(e3(a) + sh, 1), np.append(t0, 1)]))
+        B1 = PointCollection(np.stack([np.append(e3(b), 1), np.append(e3(b), 1), np.append(e3(b) + sh, 1), np.append(t1, 1)]))
+        C1 = PointCollection(np.stack([np.append(e3(cc), 1), np.append(e3(cc) + nrm, 1), np.append(e3(cc) + sh, 1), np.append(t1, 1)]))
+        D1 = PointCollection(np.stack([np.append(e3(d), 1), np.append(e3(d) + 2 * nrm, 1), np.append(e3(d) + sh, 1), np.append(t2, 1)]))
         M = np.stack([np.append(e3(a), 1), np.append(e3(b), 1), np.append(e3(cc) + nrm, 1), np.append(e3(d) + 2 * nrm, 1)])
         if abs(np.linalg.det(M)) < 0.5:
             raise Skip("middle pair not skew")
         r, f = call("seg_seg3:mixed-collection", SegmentCollection(A1, B1).intersect, SegmentCollection(C1, D1))
         if f:
             return [f]
-        exp = [e3(res[1]), e3(res[1]) + sh] if res[0] == "point" else []
-        compare(ck, list(r), exp, f"seg_seg3:mixed-collection:{'hit' if exp else 'miss'}", 1e-6)
+        exp = ([e3(res[1]), e3(res[1]) + sh] if res[0] == "point" else []) + [t1]
+        compare(ck, list(r), exp, f"seg_seg3:mixed-collection:{'hit' if len(exp) > 1 else 'miss'}", 1e-6)
         return ck.result()
     if what == "seg_seg3":
         nrm = np.cross(u, w)
